@@ -112,6 +112,7 @@ Position::Position(std::string fen) : _zobrist_hash()
 
     _zobrist_hash.init(*this);
 
+    _history.assign(MAX_PLIES, 0ULL);
     _history[0] = _zobrist_hash.get_key();
     _history_counter = 1;
 }
@@ -532,7 +533,9 @@ MoveInfo Position::do_move(Move move)
             set_enpassant_square(NO_SQUARE);
     }
 
-    assert(_history_counter < MAX_PLIES);
+    // games longer than MAX_PLIES: grow instead of writing past the end
+    if (_history_counter >= static_cast<int32_t>(_history.size()))
+        _history.resize(2 * _history.size(), 0ULL);
     _history[_history_counter++] = _zobrist_hash.get_key();
 
     return create_moveinfo(captured, prev_castling, prev_enpassant_sq,
